@@ -478,13 +478,14 @@ func rangeop(elems []any, nonTerminals []lex.Token, defaultField string) ([]any,
 		return elems, nonTerminals, false
 	}
 
+	// the boundaries of a range have to be single terms, not sub expressions
 	start, ok := elems[3].(*expr.Expression)
-	if !ok {
+	if !ok || !isTerm(start) {
 		return elems, nonTerminals, false
 	}
 
 	end, ok := elems[5].(*expr.Expression)
-	if !ok {
+	if !ok || !isTerm(end) {
 		return elems, nonTerminals, false
 	}
 
@@ -492,6 +493,11 @@ func rangeop(elems []any, nonTerminals []lex.Token, defaultField string) ([]any,
 	return []any{expr.Rang(
 		term, start, end, (open.Typ == lex.TLSquare && closed.Typ == lex.TRSquare),
 	)}, drop(nonTerminals, 4), true
+}
+
+// isTerm checks whether the expression is a single term (a literal, wildcard or regexp).
+func isTerm(e *expr.Expression) bool {
+	return e != nil && (e.Op == expr.Literal || e.Op == expr.Wild || e.Op == expr.Regexp)
 }
 
 func drop[T any](stack []T, i int) []T {
